@@ -178,6 +178,13 @@ fn interrupted(texts: &[String], replies: &[String], probes: &[String], base: &B
     if !b_ok {
         return Err(("break-message".into(), format!("k={} at_input={:?}: after interrupt() the runtime printed {:?}", k, at_input, b_flat)));
     }
+    // "the line break it forces": with the cursor in mid-line the message starts on a fresh line
+    {
+        let t = b_flat.strip_prefix("«^C»").unwrap_or(&b_flat);
+        if pr.print_col > 0 && !in_input_wait && !t.starts_with('\n') {
+            return Err(("break-message".into(), format!("k={}: the cursor stood in column {} and the break message was not put on a fresh line: {:?}", k, pr.print_col, b_flat)));
+        }
+    }
     if let Some(line) = inspect {
         term.line(line, &mut o);
         term.take();
@@ -629,6 +636,102 @@ fn check_inserted_stop(t: &mut Tape, ctx: &Ctx) -> Outcome {
     }
 }
 
+
+// ------------------------------------------------------------------ a break inside a listing
+
+/// LIST is a program statement too: a break that arrives between two listed lines is resumed by
+/// CONT like any other (the rest of the listing, then the rest of the program).
+fn check_list_interrupt(t: &mut Tape, ctx: &Ctx) -> Outcome {
+    let r1 = *t.pick(&["10-30", "", "40-", "-20", "20", "100-110"]);
+    let r2 = *t.pick(&["100-110", "10-20", "", "65000-"]);
+    let texts: Vec<String> = vec![
+        "10 FOR I=1 TO 2".to_string(),
+        "20 PRINT \"A\";I".to_string(),
+        format!("30 LIST {}:PRINT \"L\";", r1).replace("LIST :", "LIST:"),
+        "40 PRINT \"B\";I".to_string(),
+        "50 NEXT".to_string(),
+        "60 GOSUB 100:PRINT \"C\"".to_string(),
+        "70 END".to_string(),
+        format!("100 PRINT \"S\";:LIST {}:RETURN", r2).replace("LIST :", "LIST:"),
+        "110 REM é".to_string(),
+    ];
+    let run_to = |k: Option<usize>| -> Result<(String, bool), String> {
+        let mut term = Term::new();
+        let mut o = Opts::default();
+        o.quantum = 3;
+        o.max_calls = 20_000;
+        for l in &texts {
+            term.line(l, &mut o);
+        }
+        if !term.take().is_empty() {
+            return Err("program entry printed something".into());
+        }
+        term.enter_raw("RUN");
+        let mut broke = false;
+        for _ in 0..20_000 {
+            if !broke && k.map(|k| term.log.len() >= k).unwrap_or(false) {
+                term.interrupt();
+                broke = true;
+                term.run(&mut o);
+                break;
+            }
+            if term.step(&mut o) || term.dead {
+                break;
+            }
+        }
+        if broke {
+            let end = term.line("CONT", &mut o);
+            if end != End::Stopped {
+                return Err("CONT did not come to an end".into());
+            }
+        }
+        let evs = term.take();
+        if let Some(m) = has_panic(&evs) {
+            return Err(format!("panic: {}", m));
+        }
+        Ok((flat(&evs), broke))
+    };
+    let base = match run_to(None) {
+        Ok((b, _)) => b,
+        Err(e) => return Outcome::fail("harness", e, texts.join("\n")),
+    };
+    let n_events = 60;
+    let k = 1 + t.below(n_events);
+    let case = format!("{}\nRUN, interrupt() when {} events have been seen, CONT", texts.join("\n"), k);
+    crate::runner::note_case(&case);
+    let (got, broke) = match run_to(Some(k)) {
+        Ok(x) => x,
+        Err(e) => return Outcome::fail("break-inside-listing", e, case),
+    };
+    if !broke {
+        return Outcome::discard("the run ended before the chosen event");
+    }
+    // take out the break marker, the message and the line break it may force
+    let mut rest = got.replace("«^C»", "");
+    let at = match rest.find("?BREAK IN ") {
+        Some(i) => i,
+        None => return Outcome::fail("break-inside-listing", format!("no ?BREAK message in {:?}", got), case),
+    };
+    let end = rest[at..].find('\n').map(|j| at + j + 1).unwrap_or(rest.len());
+    rest.replace_range(at..end, "");
+    let alt = if at > 0 && rest[..at].ends_with('\n') {
+        let mut a = rest.clone();
+        a.remove(at - 1);
+        Some(a)
+    } else {
+        None
+    };
+    if rest != base && alt.as_deref() != Some(base.as_str()) {
+        return Outcome::fail("break-inside-listing", format!("uninterrupted run:\n{}\n--- interrupted and continued (message removed):\n{}", base, rest), case);
+    }
+    let o2 = Outcome::pass(true, hash_str(&case));
+    if ctx.render {
+        o2.with_case(case)
+    } else {
+        o2
+    }
+}
+
 pub fn property() -> Property {
     Property {
         id: "C13",
@@ -644,6 +747,7 @@ Points outside the statement are skipped using the verif-hooks probe: RUN itself
             Sub::tape("interrupt_points", check_interrupt_points, 3000, 100_000, 700).wedge(120),
             Sub::tape("quanta", check_quanta, 20_000, 600_000, 900).wedge(60),
             Sub::tape("inserted_stop", check_inserted_stop, 15_000, 500_000, 700).wedge(60),
+            Sub::tape("list_interrupt", check_list_interrupt, 1_500, 30_000, 8).wedge(60),
         ],
     }
 }
